@@ -224,7 +224,7 @@ func (j *c12Judge) judge(op *world.Op, res *world.Result, preExists map[string]b
 		}
 		return false, info
 	}
-	if !applicable {
+	if !applicable || op.Atomic {
 		return false, info
 	}
 	// did the operation get as far as running hooks at all? (it may be refused earlier: name in use, no such revision ...)
@@ -433,8 +433,16 @@ func c12Prop(t *rapid.T) {
 			}
 			sort.Slice(cand, func(a, b int) bool { return cand[a].Name < cand[b].Name })
 		}
-		// every single hook failing in turn: pick one hook object name (or none) whose completion wait fails
-		if len(cand) > 0 && rapid.IntRange(0, 2).Draw(t, "failAHook") == 0 {
+		// upgrade --atomic whose readiness wait fails: the internal rollback must honour "hooks disabled" too
+		// (with hooks enabled the rollback's own hooks are outside this check's model: only the disabled clause is judged)
+		if op.Kind == "upgrade" && rapid.IntRange(0, 4).Draw(t, "atomicUpgrade") == 0 {
+			op.Atomic = true
+			op.DisableHooks = rapid.Bool().Draw(t, "atomicNoHooks")
+			if rapid.IntRange(0, 2).Draw(t, "atomicFails") > 0 {
+				op.Fault = world.Fault{Kind: "wait", K: 0}
+			}
+			lbl["atomic-upgrade"] = true
+		} else if len(cand) > 0 && rapid.IntRange(0, 2).Draw(t, "failAHook") == 0 {
 			op.Fault = world.Fault{Kind: "waitmatch", Verb: "WatchUntilReady", Path: cand[rapid.IntRange(0, len(cand)-1).Draw(t, "failWhich")].Name}
 		}
 		j.ops = append(j.ops, op)
